@@ -308,7 +308,7 @@ func TestC12(t *testing.T) {
 			done()
 			return
 		}
-		if p.Path == "relaunch-impostor" {
+		if strings.HasPrefix(p.Path, "relaunch-impostor") {
 			// One ClientConfig object used for two launches (a supervisor restarting
 			// its plugin): launch 1 is well-behaved (announces and serves certificate
 			// A); launch 2 announces a fresh certificate B but serves with A's key.
@@ -352,7 +352,16 @@ func TestC12(t *testing.T) {
 			l1 := prepare(c.ID, "a", map[string]any{"mode": "impostor", "impostorOf": wire, "impAnnounceServed": true, "impSaveTo": idDir, "ctl": ""}, cfg, "cmd")
 			ops1, ok1 := try(l1)
 			o.PositiveOK, o.Positive = ok1, fmt.Sprint("launch 1 (announces and serves A): ", ops1)
-			l2 := prepare(c.ID, "b", map[string]any{"mode": "impostor", "impostorOf": wire, "impServeFrom": idDir, "ctl": ""}, cfg, "cmd")
+			// (-nocert / -shortcert: launch 2 announces no certificate at all, or a certificate field too short
+			// to be one, and serves with A's key)
+			pc2 := map[string]any{"mode": "impostor", "impostorOf": wire, "impServeFrom": idDir, "ctl": ""}
+			switch p.Path {
+			case "relaunch-impostor-nocert":
+				pc2["impAnnounce"] = "none"
+			case "relaunch-impostor-shortcert":
+				pc2["impAnnounce"] = "short"
+			}
+			l2 := prepare(c.ID, "b", pc2, cfg, "cmd")
 			o.HostOps, o.AnyOK = try(l2)
 			done()
 			return
